@@ -39,14 +39,31 @@ def prune_comments(n):
             prune_comments(c)
 
 
+def json_types(n, acc=None):
+    """set of type strings that occur in a subtree (to recognise dependent, i.e. uninstantiated, bodies)"""
+    acc = set() if acc is None else acc
+    if isinstance(n, dict):
+        t = n.get('type')
+        if isinstance(t, dict) and 'qualType' in t:
+            acc.add(t['qualType'])
+        for c in n.get('inner', []):
+            json_types(c, acc)
+    return acc
+
+
 class IndexX:
     """methods with bodies of non-dependent classes, by (class simple name, method name)"""
 
     def __init__(self):
         self.methods = {}     # (cls, name) -> [decl, ...]
         self.funcs = {}       # free functions: name -> [decl]
+        self.ctx = {}         # id(decl) -> template arguments of the enclosing specializations (text)
+        self.by_id = {}       # (run, clang node id) -> decl      (ids are only meaningful within one clang run)
+        self.run = 0
+        self._ctx = ''
 
     def add_docs(self, docs):
+        self.run += 1
         for d in docs:
             prune_comments(d)
             self._walk(d, None, False)
@@ -65,13 +82,30 @@ class IndexX:
         if k in ('ClassTemplateSpecializationDecl', 'CXXRecordDecl'):
             if not dependent or k == 'ClassTemplateSpecializationDecl':
                 cls2 = n.get('name')
+                saved = self._ctx
+                if k == 'ClassTemplateSpecializationDecl':
+                    targs = [c.get('type', {}).get('qualType', '') for c in n.get('inner', []) if c.get('kind') == 'TemplateArgument']
+                    self._ctx = saved + '<' + ', '.join(targs) + '>'
                 for c in n.get('inner', []):
                     self._walk(c, cls2, False if k == 'ClassTemplateSpecializationDecl' else dependent)
+                self._ctx = saved
             return
-        if k in ('ClassTemplatePartialSpecializationDecl', 'FunctionTemplateDecl'):
+        if k == 'ClassTemplatePartialSpecializationDecl':
+            return
+        if k == 'FunctionTemplateDecl':
+            # member function templates: keep their (non-dependent) specializations
+            for c in n.get('inner', [])[1:] if not dependent else []:
+                if isinstance(c, dict) and c.get('kind') == 'CXXMethodDecl' and 'id' in c:
+                    self._walk(c, cls, dependent)
             return
         if k == 'CXXMethodDecl' and cls is not None and not dependent:
+            if 'id' in n:
+                self.by_id[(self.run, n['id'])] = n
             if any(c.get('kind') == 'CompoundStmt' for c in n.get('inner', [])):
+                if '<dependent type>' in json_types(n):
+                    return
+                self.ctx[id(n)] = self._ctx
+                n['_run'] = self.run
                 lst = self.methods.setdefault((cls, n.get('name')), [])
                 if not any(norm_body(x) == norm_body(n) for x in lst):
                     lst.append(n)
@@ -83,8 +117,12 @@ class IndexX:
         for c in n.get('inner', []):
             self._walk(c, cls, dependent)
 
-    def method(self, cls, name):
+    def method(self, cls, name, ctx_has=None, ctx_not=None):
         lst = self.methods.get((cls, name), [])
+        if ctx_has is not None:
+            lst = [d for d in lst if ctx_has in self.ctx.get(id(d), '') and not (ctx_not and ctx_not in self.ctx.get(id(d), ''))]
+        if ctx_has is not None and lst:
+            return lst            # several specializations (text / binary reader ...): the caller checks they agree
         if len(lst) != 1:
             raise TranslateError('%d instantiated bodies for %s::%s (need exactly 1)' % (len(lst), cls, name))
         return lst[0]
@@ -98,12 +136,39 @@ def this_like(n):
     return n.get('kind') == 'CXXThisExpr', n
 
 
+def strip_casts(n):
+    n = strip(n)
+    while n.get('kind') in ('ImplicitCastExpr', 'CXXStaticCastExpr') and n.get('castKind') in (
+            'UncheckedDerivedToBase', 'NoOp', 'DerivedToBase', 'LValueToRValue'):
+        n = strip(n['inner'][0])
+    return n
+
+
+ACCESSORS = ('GetEnv', 'GetModel')       # zero-argument members that hand out a member object
+
+
 class FnX(Fn):
     def __init__(self, tr, decl, lean_name, cls):
         super().__init__(tr, decl, lean_name)
         self.cls = cls
         self.extras = []
         self.assigned = []
+        self.alias = {}        # decl id of a local reference to a member object -> its initialiser
+
+    def is_object(self, n):
+        """is n an object reachable from `this` through member accesses, accessors or local references to such?"""
+        n = strip_casts(n)
+        k = n.get('kind')
+        if k == 'CXXThisExpr':
+            return True
+        if k == 'MemberExpr':
+            return self.is_object(n['inner'][0])
+        if k == 'DeclRefExpr' and n['referencedDecl'].get('id') in self.alias:
+            return True
+        if k == 'CXXMemberCallExpr' and len(n['inner']) == 1:
+            c = strip(n['inner'][0])
+            return c.get('kind') == 'MemberExpr' and c.get('name') in ACCESSORS and self.is_object(c['inner'][0])
+        return False
 
     def extra(self, name):
         if name not in self.extras:
@@ -147,24 +212,21 @@ class FnX(Fn):
                 raise TranslateError('indirect member call')
             args = n['inner'][1:]
             base = callee['inner'][0]
-            is_this, b = this_like(base)
-            if is_this:
-                cls = simple_class(qual(b))
-                d = self.tr.index.methods.get((cls, callee['name']), [])
-                virt = self.tr.is_virtual(cls, callee['name'])
-                if virt:
-                    if args:
-                        raise TranslateError('virtual call with arguments')
-                    cty(qual(n))
-                    return ('p', self.extra('v_' + callee['name']))
-                return self.call_method(cls, callee['name'], args)
-            b = strip(b)
-            while b.get('kind') == 'ImplicitCastExpr':
-                b = strip(b['inner'][0])
-            if b.get('kind') == 'MemberExpr' and this_like(b['inner'][0])[0]:
-                cls = simple_class(qual(b))
-                return self.call_method(cls, callee['name'], args)
-            raise TranslateError('unsupported member call %s' % callee.get('name'))
+            name = callee['name']
+            cls = simple_class(qual(strip(base)))            # static class of the object at the call site
+            if not self.is_object(base):
+                raise TranslateError('unsupported member call %s (object is not a member path of this)' % name)
+            if (cls, name) in self.tr.abstract:
+                if args:
+                    raise TranslateError('abstract input %s::%s called with arguments' % (cls, name))
+                cty(qual(n))
+                return ('p', self.extra('m_' + name))
+            if strip_casts(base).get('kind') == 'CXXThisExpr' and self.tr.is_virtual(cls, name):
+                if args:
+                    raise TranslateError('virtual call with arguments')
+                cty(qual(n))
+                return ('p', self.extra('v_' + name))
+            return self.call_method(cls, name, args)
         if k == 'CallExpr':
             callee = strip(n['inner'][0])
             while callee['kind'] == 'ImplicitCastExpr':
@@ -185,6 +247,12 @@ class FnX(Fn):
         if lst:
             s = strip(lst[0])
             k = s['kind']
+            if k == 'DeclStmt' and len(s['inner']) == 1 and s['inner'][0].get('kind') == 'VarDecl':
+                d = s['inner'][0]
+                init = [c for c in d.get('inner', []) if isinstance(c, dict) and 'kind' in c]
+                if init and d['type']['qualType'].rstrip().endswith('&') and self.is_object(init[-1]):
+                    self.alias[d['id']] = init[-1]          # `auto& h = this->reader_.handler_;`
+                    return self.stmts(lst[1:], final)
             if k in ('CXXStaticCastExpr', 'CStyleCastExpr') and s.get('castKind') == 'ToVoid':
                 inner = strip(s['inner'][0])
                 if inner['kind'] != 'IntegerLiteral':
@@ -259,8 +327,9 @@ class FnX(Fn):
 
 
 class TranslatorX:
-    def __init__(self, index, virtuals):
+    def __init__(self, index, virtuals, abstract=()):
         self.index = index
+        self.abstract = set(abstract)   # (cls, method) treated as an abstract integer input `m_<method>`
         self.virtuals = virtuals      # set of (cls, name) treated as virtual calls (checked against the AST flag)
         self.done = {}                # (cls, name) -> (lean name, extras)
         self.order = []
@@ -337,6 +406,17 @@ def exprstr(n):
         return '%s(%s)' % (simple_class(n['type']['qualType']), ', '.join(exprstr(a) for a in n.get('inner', [])))
     if k == 'CXXDefaultArgExpr':
         return 'default'
+    if k == 'CXXDependentScopeMemberExpr':
+        return '%s.%s' % (exprstr(n['inner'][0]) if n.get('inner') else 'this', n.get('member', '?'))
+    if k in ('UnresolvedLookupExpr', 'UnresolvedMemberExpr'):
+        b = exprstr(n['inner'][0]) + '.' if n.get('inner') else ''
+        return b + n.get('name', n.get('member', '?'))
+    if k == 'CharacterLiteral':
+        return "'%s'" % chr(n['value'])
+    if k == 'CXXUnresolvedConstructExpr':
+        return 'construct(%s)' % ', '.join(exprstr(a) for a in n.get('inner', []))
+    if k == 'CXXNullPtrLiteralExpr':
+        return 'nullptr'
     return '<%s>' % k
 
 
@@ -376,6 +456,18 @@ def skeleton(n):
         return [s]
     if k == 'ReturnStmt':
         return ['return ' + (exprstr(n['inner'][0]) if n.get('inner') else '')]
+    if k == 'BreakStmt':
+        return ['break']
+    if k == 'ForStmt':
+        inner = n['inner']
+        init = ' ; '.join(skeleton(inner[0])) if inner[0] else ''
+        cond = exprstr(inner[2]) if inner[2] else ''
+        inc = exprstr(inner[3]) if inner[3] else ''
+        return ['for (%s ; %s ; %s) { %s }' % (init, cond, inc, ' ; '.join(skeleton(inner[4])))]
+    if k == 'UnaryOperator':
+        return ['eval ' + exprstr(n)]
+    if k == 'ExprWithCleanups':
+        return skeleton(n['inner'][0])
     if k == 'CXXThrowExpr':
         return ['throw ' + (exprstr(n['inner'][0]) if n.get('inner') else '')]
     if k in ('CXXStaticCastExpr', 'CStyleCastExpr') and n.get('castKind') == 'ToVoid':
